@@ -53,6 +53,7 @@ func init() {
 func init() {
 	harnesses["tools"] = &Harness{Name: "tools", Pkg: "verifrt/h/htools", Rewrites: []Rewrite{{Dir: "tools", VRange: true}}}
 	harnesses["mexpect"] = &Harness{Name: "mexpect", Pkg: "cmd/mexpect", InPkgSrc: "harness/inpkg/mexpect"}
+	harnesses["spectool"] = &Harness{Name: "spectool", Pkg: "cmd/spectool", InPkgSrc: "harness/inpkg/spectool"}
 	harnesses["msimple"] = &Harness{Name: "msimple", Pkg: "cmd/msimple", InPkgSrc: "harness/inpkg/msimple"}
 	harnesses["mdb"] = &Harness{Name: "mdb", Pkg: "cmd/mdb", InPkgSrc: "harness/inpkg/mdb",
 		Rewrites: []Rewrite{{Dir: "cmd/mdb", VRange: true}}}
@@ -147,10 +148,10 @@ var checks = map[string]*Check{
 		LevelText:   "Every small pattern/message pair over a two-letter alphabet is matched by the real matcher and by a plain backtracking reference: every embedding must be returned (and nothing else for plain patterns). Deeper: every assignment is planted into the instantiated pattern and buried under every combination of up to k partially-matching distractors; the planted assignment must be found.",
 		LevelNote:   "Trusted: reference enumerator rt/ref/rmatch.Embeddings. Side conditions of the property (arrays as sets, repeated variables scalar, planted array value distinct from constant members) are enforced by the generator; inequality variables are not part of this check.",
 		Assumptions: commonAssumptions},
-	"C13": {ID: "C13", Parts: []Part{{Harness: "core", Func: "C13"}, {Harness: "sio", Func: "C13sio"}, {Harness: "mcrew", Func: "C13mcrew"}, {Harness: "tools", Func: "C13inline"}, {Harness: "msimple", Func: "C13msimple"}}, Category: "exploration", QuickDeadline: 240, ThoroughDeadline: 1500,
+	"C13": {ID: "C13", Parts: []Part{{Harness: "core", Func: "C13"}, {Harness: "sio", Func: "C13sio"}, {Harness: "mcrew", Func: "C13mcrew"}, {Harness: "tools", Func: "C13inline"}, {Harness: "msimple", Func: "C13msimple"}, {Harness: "spectool", Func: "C13spectool"}}, Category: "exploration", QuickDeadline: 240, ThoroughDeadline: 1500,
 		Engine: "E1", DesignRef: "6/C13",
 		Technique:   "bounded-exhaustive enumeration of abstract specs x representations x pattern syntaxes x compile variants; differential of complete behaviour trees (all message sequences up to a bound) against the Go-structure rendering",
-		LevelText:   "Every abstract spec of the family is rendered in every supported representation and pattern syntax, compiled once / twice / through a serialise-reload cycle, and its complete behaviour tree over all short message sequences must equal that of the Go-structure rendering; recompilation must not change the spec; unknown interpreters, branching types and pattern syntaxes must be rejected by Compile. The hosts' own loaders (sio.ResolveSpecSource for inline / JSON-file / YAML-file sources, mcrew's Service.GetSpec for YAML files, cmd/msimple's main() for YAML files with and without %inline'd action sources) are driven with a family of specs over patterns of every JSON shape and must give the behaviour of the Go-structure rendering.",
+		LevelText:   "Every abstract spec of the family is rendered in every supported representation and pattern syntax, compiled once / twice / through a serialise-reload cycle, and its complete behaviour tree over all short message sequences must equal that of the Go-structure rendering; recompilation must not change the spec; unknown interpreters, branching types and pattern syntaxes must be rejected by Compile. The hosts' own loaders (sio.ResolveSpecSource for inline / JSON-file / YAML-file sources, mcrew's Service.GetSpec for YAML files, cmd/msimple's main() for YAML files with and without %inline'd action sources) are driven, and the repository's own converters (spectool yamltojson / jsontoyaml / analyze) are run on a specification under every combination of the error-handling settings: their output must behave like their input; the loaders are driven with a family of specs over patterns of every JSON shape and must give the behaviour of the Go-structure rendering.",
 		LevelNote:   "Trusted: the document renderers (rt/ref/rstep Doc/YAML), encoding/json and the two YAML libraries as loaders (they are what the hosts use).",
 		Assumptions: commonAssumptions},
 	"C09": {ID: "C09", Parts: []Part{{Harness: "core", Func: "C09"}, {Harness: "mcrew", Func: "C09mcrew"}, {Harness: "sio", Func: "C09sio"}}, Category: "model_checking", QuickDeadline: 240, ThoroughDeadline: 1500,
